@@ -57,6 +57,9 @@ ShapeVals(sh) ==
       [] sh = "range0"    -> <<>>
       [] sh = "np78"      -> <<"i7", "i8">>
       [] sh = "strs"      -> <<"sab", "sc">>
+      [] sh = "list_n1"   -> <<"None", "i1">>          \* collections whose first element is None / falsy / empty
+      [] sh = "list_0f"   -> <<"i0", "b0", "i2">>
+      [] sh = "tuple_e"   -> <<"s", "sx">>
 
 VARIABLES decl          \* Seq([name, shape]) in declaration order                 (ParameterList._parameters)
 
